@@ -331,29 +331,26 @@ def check_sly_defaulted(ctx):
                 if isinstance(f, ast.FunctionDef) and f.name == '__init__':
                     init = f
     ctx.need(init is not None, 'sly/yacc.py: LRTable.__init__ not found')
-    loops = [n for n in ast.walk(init) if isinstance(n, ast.For) and any(
-        isinstance(x, ast.Subscript) and norm(x.value) == 'self.defaulted_states' for x in ast.walk(n))]
-    ctx.need(len(loops) == 1, 'sly/yacc.py: the loop that fills LRTable.defaulted_states was not found')
-    lp = loops[0]
-    ifs = [s for s in lp.body if isinstance(s, ast.If)]
-    pre = [s for s in lp.body if isinstance(s, ast.Assign)]
-    ctx.need(len(ifs) == 1 and isinstance(lp.target, ast.Tuple) and len(lp.target.elts) == 2 and
-             norm(lp.iter) == 'self.lr_action.items()', 'sly/yacc.py: defaulted_states loop has an unmodelled shape')
-    aname = lp.target.elts[1].id
+    # the tail of __init__ that computes defaulted_states (from the first statement that mentions it) is interpreted on hand-made action tables
+    from ..interp import Interp, Obj, Raised, Env
+    first = next((k for k, st in enumerate(init.body) if any((isinstance(x, ast.Name) and 'defaulted' in x.id) or (isinstance(x, ast.Attribute) and 'defaulted' in x.attr)
+                                                              for x in ast.walk(st))), None)
+    ctx.need(first is not None, 'sly/yacc.py: LRTable.__init__ does not compute defaulted_states')
+    tail = ast.FunctionDef(name='defaulted_states_tail', args=ast.arguments(posonlyargs=[], args=[ast.arg(arg='self')], kwonlyargs=[], kw_defaults=[], defaults=[]),
+                           body=list(init.body[first:]), decorator_list=[], lineno=init.body[first].lineno, col_offset=0)
+    ast.fix_missing_locations(tail)
 
     def defaulted(actions):
-        env = {aname: actions, 'state': 7}
-        for a in pre:
-            if len(a.targets) == 1 and isinstance(a.targets[0], ast.Name):
-                v = a.value
-                if norm(v) == f'list({aname}.values())':
-                    env[a.targets[0].id] = list(actions.values())
-                else:
-                    env[a.targets[0].id] = peval.ev(v, env)
+        self_ = Obj('LRTable', lr_action={7: dict(actions), 8: {'A': 3, 'B': -2}})
         try:
-            return bool(peval.ev(ifs[0].test, env))
-        except TypeError:
-            return 'raises'
+            Interp.for_file(ctx.src, file, {}, {}).call_function(tail, [self_], {}, Env())
+        except Raised as r:
+            return f'raises {r.exc_name}'
+        ds = self_.attrs.get('defaulted_states')
+        if not isinstance(ds, dict) or 8 in ds:
+            return 'no table'
+        return 7 in ds and ds[7] == list(actions.values())[0]
+    ifs = [init.body[first]]
     cases = [({'$end': 0}, False, 'accept'), ({'X': -3}, True, 'single reduce'), ({'X': 5}, False, 'single shift'),
              ({'X': -1, 'Y': -2}, False, 'two reduces'), ({'X': -1, 'Y': 4}, False, 'reduce+shift'), ({}, False, 'empty')]
     for acts, exp, label in cases:
